@@ -35,6 +35,9 @@ int        g_denied_n; /* write requests refused downstream by the H layer */
 int        g_reg_n;    /* HAregister_atom calls (a new handle was handed out) */
 int        g_rem_n;    /* HAremove_atom calls */
 
+#define C14_FID 0x10000007 /* representative ids (any pairwise distinct values would do) */
+#define C14_AID 0x30000005
+#define C14_AID2 0x30000006
 #define C14_RDONLY(f) (((f)->access & DFACC_WRITE) == 0)
 #define C14_MUT(name)                                                                                        \
     do {                                                                                                     \
@@ -74,11 +77,11 @@ c14_mk_file(void)
     g_frec->ddhead = g_frec->ddlast = g_frec->ddnull = NULL;
     g_frec->ddnull_idx = -1;
     g_frec->tag_tree   = NULL;
-    /* ids are arbitrary but syntactically distinct (g_aid == g_fid + 1, g_aid2 == g_fid + 2): cbmc's simplifier then
-       decides `id == g_fid` in the atom stubs, the gate becomes a constant and the code behind it stays out of the formula */
-    H4V_HAVOC(int32, g_fid);
-    H4V_ASSUME(g_fid >= 0 && g_fid < INT32_MAX - 8);
-    g_aid = g_fid + 1;
+    /* Handles are opaque: the code under test only passes them on and the atom stubs only compare them for equality, so
+       fixed pairwise distinct representatives lose nothing (symmetry), and they let cbmc decide `id == g_fid` in the atom
+       stubs: the gate becomes a constant and the code behind it stays out of the formula. */
+    g_fid = C14_FID;
+    g_aid = C14_AID;
     g_arec  = NULL;
     g_mut_n = g_denied_n = g_reg_n = g_rem_n = 0;
     c14_init_more();
@@ -340,7 +343,7 @@ Hstartaccess(int32 file_id, uint16 tag, uint16 ref, uint32 flags)
 }
 /* access-record pool of hfile.c */
 int g_getrec_n, g_relrec_n;
-#define C14_INIT_H g_getrec_n = g_relrec_n = 0; g_aid2 = g_fid + 2;
+#define C14_INIT_H g_getrec_n = g_relrec_n = 0; g_aid2 = C14_AID2;
 accrec_t *
 HIget_access_rec(void)
 {
